@@ -35,8 +35,8 @@ import (
 type csCase struct {
 	Seed uint64 `json:"seed"`
 	Note string `json:"note"`
-	// engine "sysrun": nobody crashes while an honest node is still at height 1, so that the
-	// schedule of height 1 is complete
+	// engine "sysrun": while an honest node is still at height 1 crashes leave the log intact, so
+	// that the schedule of height 1 is complete (restarts are events of it)
 	NoCrashH1 bool `json:"no_crash_h1,omitempty"`
 }
 
@@ -114,6 +114,8 @@ type cnet struct {
 	glog     []string
 	gCommits []string
 	gStop    bool
+	sysClaimed map[int]bool // nodes whose state a (never logged) majority claim changed at height 1
+	sysDown    map[int]bool // nodes that crashed at height 1 with an intact log: their restart is an event
 }
 
 // sysNote records one handled event of a node that was at height 1 for the system model
@@ -635,9 +637,9 @@ func (c *cnet) crash(nd *vnode, tear bool) {
 		return
 	}
 	nd.preCrash = c.stateKey(nd)
+	atH1 := nd.cs.GetRoundState().Height == 1
 	nd.cs.VerifCloseWAL()
 	nd.down = true
-	c.gStop = true
 	nd.internal = nil
 	nd.timeout = nil
 	tornInput := false
@@ -666,6 +668,17 @@ func (c *cnet) crash(nd *vnode, tear bool) {
 		}
 	}
 	nd.trace = append(nd.trace, sxL(sxL("5", sxBool(tornInput)), "()"))
+	// the system model has a restart step for crashes with the whole log intact
+	if atH1 && !c.gStop {
+		if tornInput || c.sysClaimed[nd.idx] {
+			c.gStop = true
+		} else {
+			if c.sysDown == nil {
+				c.sysDown = map[int]bool{}
+			}
+			c.sysDown[nd.idx] = true
+		}
+	}
 }
 
 // stateKey summarises what a restart must bring back: height/round/step, lock, proposal block, votes
@@ -761,16 +774,25 @@ func (c *cnet) restart(nd *vnode) {
 	tag := sxL("6", sxL(mask...))
 	if err := c.boot(nd.idx, false); err != nil {
 		c.hit("restart-failed", err.Error())
+		c.gStop = true
 		return
 	}
 	nd = c.nodes[nd.idx]
 	_ = before
 	if nd.panicked != "" {
 		nd.trace = append(nd.trace, sxL(tag, "(2)"))
+		c.gStop = true
 		return
 	}
 	outs := c.collect(nd, nd.cs.GetRoundState().Height)
 	nd.trace = append(nd.trace, sxL(tag, c.observe(nd, outs)))
+	if c.sysDown[nd.idx] {
+		delete(c.sysDown, nd.idx)
+		if !c.gStop {
+			c.glog = append(c.glog, sxL(sxB(c.addrs[nd.idx]), "(6)"))
+			c.dist["sys-restarts"]++
+		}
+	}
 	// C07: with every record intact, replay brings back the step, the lock and the votes
 	if intact == len(nd.walIn) {
 		if now := c.stateKey(nd); now != nd.preCrash {
@@ -1014,7 +1036,8 @@ func (c *cnet) bigTx() int {
 func runConsensusCase(idx int, cse *csCase, workroot string) ([]string, []MonitorHit, map[string]int, bool) {
 	r := NewRng(cse.Seed)
 	c := &cnet{r: r, chainID: "verif-chain", archive: map[int64][]netMsg{}, dist: map[string]int{}, caseIdx: idx,
-		blocks: map[string]*types.Block{}, psets: map[string]*types.PartSet{}, proposers: map[string][]byte{}, madeInvalid: map[string]string{}}
+		blocks: map[string]*types.Block{}, psets: map[string]*types.PartSet{}, proposers: map[string][]byte{}, madeInvalid: map[string]string{},
+		sysClaimed: map[int]bool{}, sysDown: map[int]bool{}}
 	c.workdir = filepath.Join(workroot, fmt.Sprintf("net%d", idx))
 	os.RemoveAll(c.workdir)
 	os.MkdirAll(c.workdir, 0700)
@@ -1133,7 +1156,7 @@ func runConsensusCase(idx int, cse *csCase, workroot string) ([]string, []Monito
 					atH1 = true
 				}
 			}
-			if !nd.down && crashes < 3 && len(honest) > 1 && !(cse.NoCrashH1 && atH1) {
+			if !nd.down && crashes < 3 && len(honest) > 1 {
 				crashes++
 				c.dist["crash"]++
 				if r.Chance(1, 4) {
@@ -1141,7 +1164,11 @@ func runConsensusCase(idx int, cse *csCase, workroot string) ([]string, []Monito
 					c.dist["wal-rotated-before-crash"]++
 					catchPanic(func() { nd.cs.VerifRotateWAL() })
 				}
-				c.crash(nd, r.Chance(1, 3))
+				tear := r.Chance(1, 3)
+				if cse.NoCrashH1 && atH1 {
+					tear = false // the schedule of height 1 stays complete: crashes there leave the log intact
+				}
+				c.crash(nd, tear)
 			}
 		default:
 			if nd.down {
@@ -1299,6 +1326,12 @@ func (c *cnet) claimMaj23(nd *vnode, round int64, t byte, from string, bid types
 	}
 	nd.trace = append(nd.trace, sxL(in, c.observe(nd, c.collect(nd, rs.Height))))
 	c.sysNote(nd, rs.Height, in)
+	if rs.Height == 1 {
+		if c.sysClaimed == nil {
+			c.sysClaimed = map[int]bool{}
+		}
+		c.sysClaimed[nd.idx] = true
+	}
 }
 
 // gossipTo hands a node what the reactors of the other honest nodes would send it: the votes they
